@@ -237,16 +237,12 @@ func c02Order(r *Report, roots *Roots) {
 			if name != "orderBeginBlockers" && name != "orderEndBlockers" && name != "orderInitBlockers" {
 				continue
 			}
-			if len(fd.Body.List) != 1 {
-				r.Bad("order|"+name+"|shape", d, w.Pos(fd.Pos()), "function body is not a single return statement")
+			re := singleReturnExpr(p.TypesInfo, fd)
+			if re == nil {
+				r.Bad("order|"+name+"|shape", d, w.Pos(fd.Pos()), "function body is not a single return of a literal (directly or through one temporary)")
 				continue
 			}
-			rs, ok := fd.Body.List[0].(*ast.ReturnStmt)
-			if !ok || len(rs.Results) != 1 {
-				r.Bad("order|"+name+"|shape", d, w.Pos(fd.Pos()), "function body is not a single return of a literal")
-				continue
-			}
-			cl, ok := rs.Results[0].(*ast.CompositeLit)
+			cl, ok := re.(*ast.CompositeLit)
 			if !ok {
 				r.Bad("order|"+name+"|shape", d, w.Pos(fd.Pos()), "returned value is not a composite literal")
 				continue
